@@ -516,7 +516,7 @@ template<class P> static void run_termset(P& p, const std::vector<TermSpec>& ts,
 static void run_c04() {
     g_list = make_list_parser();
     std::vector<TermSpec> pool = c04_pool(cfg.pool);
-    std::vector<std::string> inputs; gen_inputs(std::string("abc \n\t"), cfg.maxlen, inputs);
+    std::vector<std::string> inputs; gen_inputs(std::string("abc \n\t\r\v"), cfg.maxlen, inputs);
     long idx = 0;
     std::vector<std::vector<TermSpec>> sets;
     for (size_t i = 0; i < pool.size(); ++i) sets.push_back({pool[i]});
